@@ -34,3 +34,7 @@ pub mod sigprobe;
 pub mod c04_adaptors;
 #[cfg(all(kani, feature = "c05"))]
 pub mod c05_exhaustion;
+#[cfg(all(kani, feature = "c12"))]
+pub mod c12_fork;
+#[cfg(all(kani, feature = "c14"))]
+pub mod c14_buffered;
